@@ -89,6 +89,13 @@ def main(tier, seed, replay=None):
         cases = [unhexs(l.split()[0]) for l in open(corpus) if l.strip() and not l.startswith("#")] + cases
     files = "%s %s" % (hexs(b"sub.ninja"), hexs(SUB.encode()))
     h_lines = ["%s %s %s" % (hexs(b"build.ninja"), hexs(c), files) for c in cases]
+    # include cycles: a manifest that includes itself, directly or through another file
+    cyc = [(b"include build.ninja\n", {b"build.ninja": b"include build.ninja\n"}),
+           (b"rule r\n  command = c\nsubninja a.ninja\n", {b"a.ninja": b"build x: r\ninclude b.ninja\n", b"b.ninja": b"subninja a.ninja\n"}),
+           (b"include a.ninja\n", {b"a.ninja": b"include a.ninja\n"})]
+    for text, fs in cyc:
+        cases.append(text)
+        h_lines.append("%s %s %s" % (hexs(b"build.ninja"), hexs(text), " ".join("%s %s" % (hexs(k), hexs(v)) for k, v in fs.items())))
     impl = run_lines_sharded([har, "load"], h_lines)
     model = run_lines_sharded([drv, "load"], ["1 " + l for l in h_lines])
     bad = []
